@@ -185,6 +185,11 @@ impl Chain {
         self.clock.slot = slot;
         self.ctx.set_sysvar(&self.clock);
     }
+    /// the next epoch begins (what the token program keys scheduled transfer-fee changes on)
+    pub fn advance_epoch(&mut self) {
+        self.clock.epoch += 1;
+        self.ctx.set_sysvar(&self.clock);
+    }
     pub fn now(&self) -> i64 {
         self.clock.unix_timestamp
     }
